@@ -714,6 +714,17 @@ fn source_clauses(
                         vec![format!("error-kind:{}", wp)],
                     );
                 }
+                // a path walk starts at the base, so the depth of an error is the number of
+                // components of the offending path below the base
+                if !is_glob && is_under(&wp, &space.start) && e.depth != depth_of(rel_to(&wp, &space.start)) {
+                    out.violate(
+                        "C20",
+                        "err-sound",
+                        wi,
+                        format!("error for {:?} reports depth {} but the path lies {} levels below the walked directory", wp, e.depth, depth_of(rel_to(&wp, &space.start))),
+                        vec![format!("error-depth:{}", wp)],
+                    );
+                }
                 out.fire(fault_name(f));
             },
             None => {
